@@ -43,6 +43,7 @@ def norm_prim_rule(repo, R):
                     if e.attr in ("exps", "angmom", "angmom_components_cart") else super().expr(e)
             return super().expr(e)
     ev = E(f, {}, handlers={"factorial2": h_fact2}, rule="NORM")
+    ev.component_symbols = (sp.Symbol("n_c", integer=True, nonnegative=True), (ax, ay, az))
     ev.run()
     if len(ev.returns) != 1:
         raise AnalysisError("NORM", "norm_prim_cart: expected one return", f.where())
@@ -58,7 +59,7 @@ def norm_prim_rule(repo, R):
             for tz in range(0, top):
                 n_checked += 1
                 L = tx + ty + tz
-                val = got.subs(l, L)
+                val = got.subs({l: L, ax: tx, ay: ty, az: tz})
                 # Prod over the component axis of F2(2 n_c - 1): substitute the three components
                 from ..formula import Prod as P
                 prods = list(val.atoms(P))
@@ -68,6 +69,8 @@ def norm_prim_rule(repo, R):
                     for t in (tx, ty, tz):
                         rep *= inner.subs(nc, t)
                     val = val.subs(pr, rep)
+                if not all(getattr(z.args[0], "is_Integer", False) for z in val.atoms(sp.Function("F2"))):
+                    raise AnalysisError("NORM", "norm_prim_cart: a double factorial of a non-constant survives the substitution of the exponents", f.where())
                 val = val.replace(sp.Function("F2"), lambda z: sp.factorial2(z) if z > 0 else sp.Integer(1))
                 want = sp.Integer(1)
                 for t in (tx, ty, tz):
